@@ -133,8 +133,10 @@ pub struct Plans {
 #[derive(Clone, Debug)]
 pub struct RunOutput {
     pub outcome: Outcome,
-    /// output column names and Arrow types (as text) when planning succeeded
+    /// output column names and Arrow types (as text) of the plan *before* optimization, when planning succeeded
     pub columns: Vec<(String, String)>,
+    /// the same for the optimized logical plan (empty if optimization failed)
+    pub optimized_columns: Vec<(String, String)>,
     pub plans: Option<Plans>,
     pub elapsed_ms: u64,
 }
@@ -397,30 +399,37 @@ pub fn register_tables(ctx: &SessionContext, tables: &[Table], v: &Variant) -> R
 
 /// Plan and execute one SQL text on a prepared context, stage by stage.
 pub async fn execute_sql(ctx: &SessionContext, sql: &str, want_plans: bool) -> (Outcome, Vec<(String, String)>, Option<Plans>) {
+    let (o, c, _, p) = execute_sql_full(ctx, sql, want_plans).await;
+    (o, c, p)
+}
+
+/// like `execute_sql`, also returning the optimized plan's output columns (third component)
+pub async fn execute_sql_full(ctx: &SessionContext, sql: &str, want_plans: bool) -> (Outcome, Vec<(String, String)>, Vec<(String, String)>, Option<Plans>) {
     let state = ctx.state();
     let logical = match state.create_logical_plan(sql).await {
         Ok(p) => p,
-        Err(e) => return (Outcome::Error(err_info(&e, Stage::Logical)), vec![], None),
+        Err(e) => return (Outcome::Error(err_info(&e, Stage::Logical)), vec![], vec![], None),
     };
     let columns: Vec<(String, String)> = logical.schema().fields().iter().map(|f| (f.name().clone(), f.data_type().to_string())).collect();
     let mut plans = if want_plans { Some(Plans { logical: logical.display_indent().to_string(), ..Default::default() }) } else { None };
     let optimized = match state.optimize(&logical) {
         Ok(p) => p,
-        Err(e) => return (Outcome::Error(err_info(&e, Stage::Optimize)), columns, plans),
+        Err(e) => return (Outcome::Error(err_info(&e, Stage::Optimize)), columns, vec![], plans),
     };
+    let ocols: Vec<(String, String)> = optimized.schema().fields().iter().map(|f| (f.name().clone(), f.data_type().to_string())).collect();
     if let Some(p) = plans.as_mut() {
         p.optimized = optimized.display_indent().to_string();
     }
     let physical = match state.query_planner().create_physical_plan(&optimized, &state).await {
         Ok(p) => p,
-        Err(e) => return (Outcome::Error(err_info(&e, Stage::Physical)), columns, plans),
+        Err(e) => return (Outcome::Error(err_info(&e, Stage::Physical)), columns, ocols, plans),
     };
     if let Some(p) = plans.as_mut() {
         p.physical = datafusion::physical_plan::displayable(physical.as_ref()).indent(false).to_string();
     }
     match datafusion::physical_plan::collect(physical, ctx.task_ctx()).await {
-        Ok(batches) => (Outcome::Rows(batches_to_rows(&batches)), columns, plans),
-        Err(e) => (Outcome::Error(err_info(&e, Stage::Execute)), columns, plans),
+        Ok(batches) => (Outcome::Rows(batches_to_rows(&batches)), columns, ocols, plans),
+        Err(e) => (Outcome::Error(err_info(&e, Stage::Execute)), columns, ocols, plans),
     }
 }
 
@@ -444,12 +453,12 @@ where
 pub fn run_sql_with(tables: &[Table], sql: &str, v: &Variant, want_plans: bool, customize: impl FnOnce(SessionStateBuilder) -> SessionStateBuilder) -> RunOutput {
     let t0 = Instant::now();
     let sql_owned = sql.to_string();
-    let r = run_in_context(tables, v, customize, |ctx| async move { execute_sql(&ctx, &sql_owned, want_plans).await });
+    let r = run_in_context(tables, v, customize, |ctx| async move { execute_sql_full(&ctx, &sql_owned, want_plans).await });
     let elapsed_ms = t0.elapsed().as_millis() as u64;
     match r {
-        Err(e) => RunOutput { outcome: Outcome::Error(e), columns: vec![], plans: None, elapsed_ms },
-        Ok(None) => RunOutput { outcome: Outcome::Timeout, columns: vec![], plans: None, elapsed_ms },
-        Ok(Some((outcome, columns, plans))) => RunOutput { outcome, columns, plans, elapsed_ms },
+        Err(e) => RunOutput { outcome: Outcome::Error(e), columns: vec![], optimized_columns: vec![], plans: None, elapsed_ms },
+        Ok(None) => RunOutput { outcome: Outcome::Timeout, columns: vec![], optimized_columns: vec![], plans: None, elapsed_ms },
+        Ok(Some((outcome, columns, optimized_columns, plans))) => RunOutput { outcome, columns, optimized_columns, plans, elapsed_ms },
     }
 }
 
